@@ -71,7 +71,7 @@ RET = {
     "np.round": "same", "np.around": "same", "np.abs": "same", "abs": "same", "np.sum": "real", "np.conj": "same", "np.conjugate": "same", "np.transpose": "same",
     "scipy.linalg.sqrtm": "arr", "scipy.linalg.inv": "arr", "scipy.linalg.det": "real", "np.linalg.det": "real", "np.linalg.matrix_power": "arr", "np.kron": "arr",
     "np.linalg.inv": "arr", "np.exp": "same", "np.max": "real", "np.min": "real", "np.linalg.matrix_rank": "real", "np.outer": "arr", "np.dot": "arr", "np.matmul": "arr",
-    "scipy.linalg.fractional_matrix_power": "arr", "np.zeros_like": "arr", "np.eye": "arr", "np.identity": "arr", "np.diag": "arr", "np.cos": "same", "np.sin": "same", "round": "same", "np.array": "same", "np.asarray": "same",
+    "scipy.linalg.fractional_matrix_power": "arr", "np.zeros_like": "arr", "np.eye": "arr", "np.identity": "arr", "np.diag": "arr", "np.cos": "same", "np.sin": "same", "round": "same", "np.linalg.eigvals": "arr", "np.linalg.eigvalsh": "arr", "np.sort": "arr", "np.array": "same", "np.asarray": "same",
 }
 PRED = {"is_density", "is_positive_semidefinite", "is_hermitian", "is_square", "is_unitary", "is_pure", "np.all", "np.any", "isinstance", "is_positive_definite"}
 CLOSE_DEFAULTS = {"rtol": 1e-05, "atol": 1e-08}
@@ -244,6 +244,18 @@ class TermEngine(Engine):
                     return uf("np.real", Arr, base)
             raise Unsupported("attribute %s" % ast.unparse(e))
         if isinstance(e, ast.Subscript):
+            try:
+                base0 = self.ev(e.value, env, pc)
+            except Unsupported:
+                base0 = None
+            if is_arr(base0):
+                sl = e.slice
+                if isinstance(sl, ast.Slice) and sl.lower is None and sl.upper is None and isinstance(sl.step, ast.UnaryOp) and isinstance(sl.step.op, ast.USub) and isinstance(sl.step.operand, ast.Constant) and sl.step.operand.value == 1:
+                    return uf("reversed", Arr, base0)  # x[::-1]
+                if not isinstance(sl, (ast.Slice, ast.Tuple)):
+                    i0 = self.ev(sl, env, pc)
+                    if isinstance(i0, int):
+                        return uf("item[%d]" % i0, z3.RealSort(), base0)
             raise Unsupported("subscript %s" % ast.unparse(e))
         return super().ev(e, env, pc)
 
